@@ -559,7 +559,7 @@ def tables_rule(ctx):
 def run(ctx):
     from ..shared import commit_idempotent_rule as _commit_idempotent_rule
 
-    _commit_idempotent_rule(ctx, "R17.9")
+    ctx.attempt(_commit_idempotent_rule, ctx, "R17.9")
     ctx.level = "proof"
     ctx.explanation = (
         "Calc_C is interpreted for all 14 SplitType values in a non-commutative matrix algebra (atoms C, S, projP, projM, IxI, sqrtC; scalar selectors Rp, Rm); with "
@@ -570,7 +570,7 @@ def run(ctx):
     )
     ctx.trust("sa/props/c17.py NC (non-commutative polynomials with relations C.S = Id, sqrtC.isqrtC = Id, symmetric atoms)")
     split_rule(ctx)
-    trace_selector_rule(ctx)
+    ctx.attempt(trace_selector_rule, ctx)
     projector_rule(ctx)
     mask_rule(ctx)
     history_rule(ctx)
